@@ -1,37 +1,3 @@
-TECH = "contract-based deductive verification: VCs generated from the real ast, discharged by z3"
-CHECKS = {
- "C04": {"level": "proof", "technique": TECH,
-         "text": "base64 / base64offset modify() are proved, for every payload, to return exactly the payload-determined sextet window of RFC 4648 (lemmas: window maximal and inside payload bits, aligned occurrences share the sextets); rejecting only for wildcard payloads",
-         "note": "assumed: RFC 4648 length/sextet layout of base64.b64encode; strict UTF-8/UTF-16 codecs; SigmaString.__len__/contains_special summaries; bounded stand-in (payloads <= 3/4 symbols) reported separately; known finding: utf16 BOM; pyvc encoding of Python semantics; z3"},
- "C13": {"level": "proof", "technique": TECH,
-         "text": "the four gates of ProcessingItem (rule / detection item / field name / field-in-value) are proved equal to the specification gate for every condition list or expression, linking, negation flag and condition result (conditions abstract); ProcessingPipeline.apply is proved to re-create every per-rule tracking field before the first item runs",
-         "note": "assumed: class invariant established by _check_conditions; built-in condition classes' own match() meaning and the pyparsing expression grammar are outside the proved part; pyvc encoding; z3"},
- "C14": {"level": "proof", "technique": TECH,
-         "text": "ProcessingPipeline.__add__/__radd__ proved to be component-wise concatenation with right-biased vars and ownership hand-over; lemmas: associativity, identity, later-vars-win; resolver.resolve proved to fold + in (priority, name) order for every argument order (0..3 pipelines unrolled, priorities symbolic); Backend.init_processing_pipeline order and Backend.convert stage trace proved with abstract callees",
-         "note": "assumed: sorted() stable/<-only; __post_init__/_clear_pipeline summaries; list length of resolve unrolled to <= 3 (stated bound); bounded stand-in (all permutations/bracketings of <= 3/4 real pipelines, one backend stage trace) reported separately"},
- "C16": {"level": "proof", "technique": TECH,
-         "text": "capability provenance proved for every transformation / post-processing / finalizer type of the registries: the opt-in fields of constructed objects are the caller's arguments (object identity), never document values, through _instantiate_transformation, item from_dict, pipeline from_dict/from_yaml and the nested loaders; fetch and exec sites proved dominated by their gates (allow flag or documented env var; real path equal to or below realpath(base)+os.sep); effect-site INVENTORY over sigma/processing",
-         "note": "assumed: os.path.realpath/dirname, os.environ, yaml.safe_load, Jinja2 are external; constructors abstract; one element per list (loops treat elements alike); document keys other than the opt-in keys represented by one generic key; bounded stand-in (injected real documents under an audit hook) reported separately"},
- "C18": {"level": "other", "technique": TECH + "; IPv6 clause: bounded enumeration (stand-in)",
-         "text": "IPv4: SigmaCIDRExpression.expand proved (loop invariant) to return exactly [first prefixlen//8 octets + '.' + wildcard] per sub-network of network.subnets((8-p%8)%8); arithmetic lemmas for all 33 prefix lengths: sound, complete, irredundant on integer match sets; native-CIDR conversion proved to pass the normalised network values. IPv6: bounded only (129 prefix lengths x 10 addresses), with a recorded known finding",
-         "note": "assumed: ipaddress contracts (subnets, prefixlen, dotted-quad rendering), pattern-matching semantics of 'o1.….og.*' on dotted quads; IPv6 branch not under contract (RFC 5952 rendering is outside the assumed library contracts) - bounded stand-in, never counted as proved"},
- "C10": {"level": "other", "technique": TECH,
-         "text": "proved: timespan parsing (seconds == count x unit length, SigmaTimespanError exactly for malformed input), convert_timespan modes, convert_correlation_search (single-rule form iff one reference with one query; else one tagged sub-query per reference x query in order with that reference's normalisation), FieldMappingTransformationBase.apply on correlation rules (group-by / alias targets / condition fields mapped consistently, independent of rules processed earlier by the same object)",
-         "note": "not yet under contract: typing / aggregation / condition templates, extended boolean conditions (pyparsing grammar is external), sub-query finalisation branch of convert_rule; templates are opaque (contracts state which values are passed); reference and query counts unrolled to <= 2"},
- "C05": {"level": "other", "technique": TECH + "; decode-side and regex clauses: bounded enumeration (stand-in)",
-         "text": "proved (unbounded, loop invariants over symbolic part lists and strings): the parser SigmaString.__init__ against the Sigma escaping specification sp(); to_plain == per-part text; convert() == per-atom target encoding for every configuration (3 code paths, nested loops, identity lemma by induction), rendered only if no placeholder / missing wildcard token; startswith / endswith / contains_special. Bounded: plain-form round trip, decode(convert(v)) == atoms under the target's reader, regex form vs wildcard pattern, field-name quoting",
-         "note": "known findings D1 (to_plain not injective) and D20 (escape character not escaped) confined to listed inputs / a stated sub-domain; definitions of spec functions are supplied as instances of their defining equations; induction schema is the meta-argument of lemma obligations; CPython re engine and the target language reader are outside the proof"},
- "C17": {"level": "other", "technique": TECH + "; end-to-end clause: bounded enumeration (stand-in)",
-         "text": "proved: SigmaString.replace_placeholders yields exactly the cross product (first placeholder outermost, callback order) for all part-list shapes of <= 3 parts with symbolic contents; is_handled_placeholder; placeholder_replacements_base (current variable table, also after earlier calls on the same object); ValueListPlaceholderTransformation.placeholder_replacements (configuration order, SigmaValueError for missing / empty / ill-typed); SigmaString.convert renders only values without placeholder parts (loop invariant, all configurations); regex escape() dominated by the placeholder guard",
-         "note": "part-list shapes unrolled to <= 3 parts; the regex-based insert_placeholders and the pipeline walk are covered by the bounded stand-in (values of <= 3 pieces x 4 positions x 6 pipelines) only"},
- "C03": {"level": "other", "technique": TECH + "; chain product: bounded enumeration (stand-in)",
-         "text": "proved per modifier: contains / startswith / endswith on strings add exactly the missing wildcards (atoms level); all / neq set linking / negation and leave the values alone; re, cidr, cased, fieldref, exists, lt/lte/gt/gte, timestamp parts and the regex flag modifiers change the type, keep the content, and reject inadmissible chains with SigmaValueError; the identifier table maps every documented name to its class. Bounded: all chains of <= 2 (quick) / 3 (thorough) modifiers x 25 values against an independent specification",
-         "note": "assumed: SigmaString.__add__/__radd__/_merge_strs at atoms level, normal form of part lists, value-type constructors abstract; windash / expand (regex based) and the regex / field-reference branches of the wildcard modifiers are covered only by the bounded stand-in"},
- "C07": {"level": "other", "technique": TECH + " over symbolic YAML values; correlation / filter loaders: bounded mutation (stand-in)",
-         "text": "proved with documents as symbolic YAML data (None | bool | int | float | str | list | map | date, one level of nesting): SigmaRuleBase.from_dict_common_params for each of the 18 header keys, SigmaRule.from_dict (log source / detection section of any type or missing), SigmaDetection.from_definition, SigmaLogSource.from_dict, SigmaCorrelationTimespan: only Sigma errors escape, none in collecting mode, strict mode returns only without errors. Bounded: every path of 5 valid documents replaced by 25 wrong-typed values / deleted, strict vs collecting (first error equal), 5 collection streams",
-         "note": "assumed may-raise sets of uuid.UUID, re.fullmatch, datetime.date, int, str, Enum[...]; header keys verified one at a time (blocks read disjoint keys); SigmaCorrelationRule.from_dict and SigmaFilter.from_dict are NOT under contract: known finding D8 (377 listed escape signatures), bounded only"},
-}
-NOT_APPLICABLE = {
- "C20": "quantifies over interpreter processes, PYTHONHASHSEED values and draws of the random module for the whole load+convert output: no contract on a single call can express 'another process'; deciding it needs repeated subprocess execution, a different technique family (DESIGN.md section 11)",
-}
-NOTES = "See DESIGN.md. Exit codes of ./check: 0 held, 1 VIOLATION (replay file), 2 undecided (solver unknown / outside subset), 3 checker crash."
+import json, os
+_d = json.load(open(os.path.join(os.path.dirname(os.path.abspath(__file__)), "checks.json")))
+CHECKS, NOT_APPLICABLE, NOTES = _d["checks"], _d["not_applicable"], _d["notes"]
